@@ -76,8 +76,13 @@ def escape_state_family():
             for c, ec in modes:
                 out.append(("{%% autoescape %s %%}{%% autoescape %s %%}{%% autoescape %s %%}{{ v }}{%% endautoescape %%}{{ v }}{%% endautoescape %%}{{ v }}{%% endautoescape %%}{{ v }}" % (a, b, c),
                             show(ec) + show(eb) + show(ea) + show(False)))
+            # per context (l = [1,2,3] / c true: every iteration continues; c false: none does; l = []): the mode after the loop is the outer block's
             out.append(("{%% autoescape %s %%}{%% for i in l %%}{%% autoescape %s %%}{%% if c %%}{%% continue %%}{%% endif %%}{{ v }}{%% endautoescape %%}{{ v }}{%% endfor %%}{{ v }}{%% endautoescape %%}{{ v }}" % (a, b),
-                        None))
+                        [show(ea) + show(False), (show(eb) + show(ea)) * 3 + show(ea) + show(False), show(ea) + show(False)]))
+            out.append(("{%% autoescape %s %%}{%% for i in l %%}{%% autoescape %s %%}{%% if i == 2 %%}{%% continue %%}{%% endif %%}{{ v }}{%% endautoescape %%}{{ v }}{%% endfor %%}{{ v }}{%% endautoescape %%}{{ v }}" % (a, b),
+                        [(show(eb) + show(ea)) * 2 + show(ea) + show(False)] * 2 + [show(ea) + show(False)]))
+            out.append(("{%% autoescape %s %%}{%% for i in l %%}{%% autoescape %s %%}{%% if i == 2 %%}{%% break %%}{%% endif %%}{{ v }}{%% endautoescape %%}{{ v }}{%% endfor %%}{{ v }}{%% endautoescape %%}{{ v }}" % (a, b),
+                        [show(eb) + show(ea) + show(ea) + show(False)] * 2 + [show(ea) + show(False)]))
             out.append(("{%% autoescape %s %%}{%% with q = 1 %%}{%% autoescape %s %%}{{ v }}{%% endautoescape %%}{%% endwith %%}{{ v }}{%% set z %%}{%% autoescape %s %%}{{ v }}{%% endautoescape %%}{{ v }}{%% endset %%}{{ z }}{%% endautoescape %%}{{ v }}" % (a, b, b),
                         show(eb) + show(ea) + show(eb) + show(ea) + show(False)))
     return out
@@ -436,6 +441,127 @@ def self_family():
     return out
 
 
+
+# ---------------------------------------------------------------------------------------------
+# closure-sentinel family: what MACROS see of the variables around them, before / inside / after
+# every scoped construct.  Oracle: the extracted reference interpreter (Lang/Interp, runner c03 of
+# C03) on the program WITHOUT the no-op statements (include / import of templates that write and
+# define nothing the program uses) - inserting those must not change what is rendered.
+# ---------------------------------------------------------------------------------------------
+CLOS_AUX = {"cl_empty": "", "cl_quiet": "{% set unrelated_q = 1 %}{% macro unrelated_m() %}u{% endmacro %}",
+            "cl_lib": "silent{% macro helper() %}h{% endmacro %}"}
+CLOS_NOOPS = ["{% include 'cl_empty' %}", "{% include 'cl_quiet' %}", "{% import 'cl_lib' as unused_i %}", "{% from 'cl_lib' import helper as unused_h %}",
+              "{% include ['cl_missing', 'cl_empty'] %}", "{% include 'cl_missing' ignore missing %}"]
+
+
+def _S(s): return ("str", s)
+def _call(name): return ("emit", ("call", name, [], []))
+def _show(name, var): return ("macro", name, [], [], [("raw", "["), ("emit", ("var", var)), ("raw", "]")])
+
+
+def clos_constructs():
+    """label -> f(body, uid) = (oracle statements, source statements or None when equal)"""
+    def simple(mk):
+        return lambda body, u: (mk(body[0], u), mk(body[1], u))
+    C = {
+        "with": simple(lambda b, u: [("with", [("w%d" % u, ("int", 1))], b)]),
+        "for": simple(lambda b, u: [("for", "i%d" % u, ("list", [("int", 1)]), None, b, None, False)]),
+        "forelse": simple(lambda b, u: [("for", "i%d" % u, ("list", []), None, [("raw", "n")], b, False)]),
+        "if": simple(lambda b, u: [("if", [(("bool", True), b)], None)]),
+        "setblock": simple(lambda b, u: [("setblock", "z%d" % u, b, None), ("emit", ("var", "z%d" % u))]),
+        "filterblock": simple(lambda b, u: [("filterblock", "trim", b)]),
+        "autoescape": simple(lambda b, u: [("autoescape", ("bool", True), b)]),
+        "macro": simple(lambda b, u: [("macro", "k%d" % u, [], [], b), _call("k%d" % u)]),
+        "callblock": simple(lambda b, u: [("macro", "wr%d" % u, [], [], [("raw", "<"), _call("caller"), ("raw", ">")]), ("callblock", "wr%d" % u, [], b)]),
+        # a block behaves like a with block without bindings; only the source differs
+        "block": lambda body, u: ([("with", [("w%d" % u, ("int", 1))], body[0])],
+                                  [("raw", "{%% block bk%d %%}" % u)] + body[1] + [("raw", "{% endblock %}")]),
+    }
+    return C
+
+
+def closure_family(rng):
+    """-> (label, oracle AST, source AST)"""
+    C = clos_constructs()
+    out = []
+    uid = [0]
+    def noop(k):
+        return ("raw", CLOS_NOOPS[k % len(CLOS_NOOPS)])
+    def core(cl, inner_kind, nk):
+        """set v; macro show reads v; construct cl around {noop; inner}; re-assignment; calls of show everywhere"""
+        uid[0] += 1
+        u = uid[0]
+        o = [("set", "v", _S("old")), _show("show", "v"), _call("show")]
+        s = list(o)
+        if inner_kind == "call":
+            io = [_call("show")]
+            isrc = [noop(nk), _call("show"), noop(nk + 1)]
+        elif inner_kind == "set":
+            io = [("set", "v", _S("inner")), _call("show"), ("emit", ("var", "v"))]
+            isrc = [noop(nk), ("set", "v", _S("inner")), noop(nk + 2), _call("show"), ("emit", ("var", "v"))]
+        elif inner_kind == "setafter":       # the A5 shape: the include first, then a local assignment the macro must not see
+            io = [_call("show"), ("set", "v", _S("inner")), _call("show")]
+            isrc = [noop(nk), _call("show"), ("set", "v", _S("inner")), _call("show")]
+        else:                                 # a macro declared inside the construct, reading v and a local y
+            m2 = ("macro", "show2", [], [], [("raw", "("), ("emit", ("var", "v")), ("emit", ("var", "y")), ("raw", ")")])
+            io = [("set", "y", _S("y1")), m2, _call("show2"), ("set", "y", _S("y2")), ("set", "v", _S("in2")), _call("show2"), _call("show")]
+            isrc = [("set", "y", _S("y1")), m2, noop(nk), _call("show2"), ("set", "y", _S("y2")), noop(nk + 3), ("set", "v", _S("in2")), _call("show2"), _call("show")]
+        co, cs = C[cl]((io, isrc), u)
+        tail = [("raw", "|"), _call("show"), ("set", "v", _S("new")), _call("show"), ("emit", ("var", "v"))]
+        return o + co + tail, s + cs + tail
+    kinds = ["call", "set", "setafter", "macro2"]
+    levels = ["top", "with", "for", "macro", "callblock", "if", "block"]
+    k = 0
+    for cl in C:
+        for ik in kinds:
+            for lv in levels:
+                k += 1
+                if lv == "block" and cl in ("block",) and False:
+                    continue
+                o, s = core(cl, ik, k)
+                if lv != "top":
+                    if lv in ("macro", "callblock") and cl == "block":
+                        continue          # no blocks inside macros
+                    uid[0] += 1
+                    o, s = C[lv]((o, s), uid[0])
+                out.append(("clos:%s:%s:%s" % (lv, cl, ik), o + [("raw", "|END")], s + [("raw", "|END")]))
+    # for-else inside macro / call bodies: names the loop binds are, in the else branch, those of the surroundings
+    uid[0] += 1
+    for where in ("macro", "callblock", "macro_in_macro", "macro_in_for"):
+        for bound in ("target", "bodyset", "loop", "target_unpack"):
+            for itr in ("empty", "nonempty"):
+                it = ("list", [] if itr == "empty" else [("list", [("int", 7), ("int", 8)])] if bound == "target_unpack" else [("int", 7)])
+                if bound == "target":
+                    pre = [("set", "item", _S("outer"))]
+                    loop = ("for", "item", it, None, [("raw", "<"), ("emit", ("var", "item")), ("raw", ">")], [("raw", "none:"), ("emit", ("var", "item"))], False)
+                elif bound == "target_unpack":
+                    pre = [("set", "p", _S("outer-p")), ("set", "q", _S("outer-q"))]
+                    loop = ("for", ["p", "q"], it, None, [("raw", "<"), ("emit", ("var", "p")), ("emit", ("var", "q")), ("raw", ">")],
+                            [("raw", "none:"), ("emit", ("var", "p")), ("emit", ("var", "q"))], False)
+                elif bound == "bodyset":
+                    pre = [("set", "w", _S("outer"))]
+                    loop = ("for", "i", it, None, [("set", "w", _S("body")), ("raw", "<"), ("emit", ("var", "w")), ("raw", ">")], [("raw", "none:"), ("emit", ("var", "w"))], False)
+                else:
+                    pre = []
+                    loop = ("for", "i", it, None, [("raw", "<"), ("emit", ("attr", ("var", "loop"), "index")), ("raw", ">")],
+                            [("raw", "none:"), ("emit", ("attr", ("var", "loop"), "index"))], False)
+                body = [("raw", "("), loop, ("raw", ")")]
+                if where == "macro":
+                    prog = pre + [("macro", "m", [], [], body), _call("m")]
+                elif where == "callblock":
+                    prog = pre + [("macro", "wr", [], [], [("raw", "<"), _call("caller"), ("raw", ">")]), ("callblock", "wr", [], body)]
+                elif where == "macro_in_macro":
+                    prog = pre + [("macro", "outer_m", [], [], [("macro", "m", [], [], body), _call("m")]), _call("outer_m")]
+                else:
+                    prog = pre + [("for", "o", ("list", [("int", 1), ("int", 2)]), None, [("macro", "m", [], [], body), _call("m")], None, False)]
+                if bound == "loop" and where != "macro_in_for":
+                    # `loop` of an enclosing loop: put the whole program into one
+                    prog = [("for", "o", ("list", [("int", 1), ("int", 2)]), None, prog, None, False)]
+                prog = prog + [("raw", "|END")]
+                out.append(("clos:forelse:%s:%s:%s" % (where, bound, itr), prog, prog))
+    return out
+
+
 def fixture_cases():
     """-> (name, source, context or None, aux templates): the repository's fixtures with their own context (first part of
     the file) and the templates under inputs/refs they include / extend"""
@@ -558,7 +684,7 @@ def main():
             body = g.template(kinds) + [("raw", SENT)]
             add("gen%d" % j, proggen.body_src(body), ast=body)
         for k, (src, exp) in enumerate(escape_state_family()):
-            add("escstate%d" % k, src + SENT, expect=[None if exp is None else ("ok", exp + SENT)] * 3)
+            add("escstate%d" % k, src + SENT, expect=[("ok", e + SENT) for e in exp] if isinstance(exp, list) else [None if exp is None else ("ok", exp + SENT)] * 3)
         # the recursive-loop family: expected output from the extracted Gallina oracle
         fam = rec_family(chk.rng, 3000 if chk.thorough else 300)
         trees = rec_trees()
@@ -598,6 +724,32 @@ def main():
             aux = dict(MT_AUX); aux.update({k: v for k, v in tm.items() if k != "main"})
             add("mt:" + label, tm["main"], ctxs=[{}], expect=[("ok", exp)], aux=aux, sentinel="|END")
             hist["mt_family_" + label.split(":")[0]] += 1
+        # closure-sentinel family: expected output from the extracted reference interpreter on the program without the no-op statements
+        cfam = closure_family(chk.rng)
+        if build_models("C03")[0]:
+            encs = []
+            for label, o, src in cfam:
+                try:
+                    encs.append(langenc.request(o, {})[0])
+                except Exception:
+                    encs.append([0])
+            refs = pmap(lambda c: run_model("C03", "c03", c), encs)
+            for (label, o, src), e in zip(cfam, refs):
+                parts = label.split(":")
+                if parts[1] == "forelse" and parts[3] == "loop" and parts[4] == "empty":
+                    # `loop` of the enclosing loop read inside a macro: the engine encloses the live loop object; the reference
+                    # interpreter snapshots it (known difference of Lang/Interp, not of the engine): expectation stated here
+                    w = ("<%s>" if parts[2] == "callblock" else "%s")
+                    exp = "".join(w % ("(none:%d)" % k) for k in (1, 2)) + "|END"
+                elif e[:1] == [0]:
+                    exp = "".join(chr(x) for x in e[2:])
+                else:
+                    hist["closure_family_not_in_fragment"] += 1
+                    continue
+                add("mt:" + label, proggen.body_src(src), ctxs=[{}], expect=[("ok", exp)], aux=CLOS_AUX, sentinel="|END")
+                hist["mt_family_closure_" + parts[1]] += 1
+        else:
+            chk.notes["closure_family"] = "the reference interpreter (C03 models) did not build: the closure-sentinel family was NOT run"
         # blocks that render themselves again through self.name() (Python test oracle)
         for label, tm, ctx, exp in self_family():
             aux = {k: v for k, v in tm.items() if k != "main"}
@@ -702,6 +854,7 @@ def main():
                 elif want is not None and want != ("ok", rr["ok"]):
                     what = ("a recursive loop did not render the fold over the tree (operand, capture or escape state not restored around a recursion call)" if t["name"].startswith("rec:")
                             else "variable scope not as before a scoped construct (sentinel variable after the construct)" if t["name"].startswith("mt:scope")
+                            else "a macro does not see the variables of its surroundings as they are (closure link / enclosed names not as before a scoped construct, an include or in a for-else branch)" if t["name"].startswith("mt:clos")
                             else "a block that renders itself again through self.name() does not leave the variables / scopes of the outer rendering as they were" if t["name"].startswith("mt:self")
                             else "output of a template that extends / imports / includes an extending template went to the wrong target (capture state across the hand-over to the parent)" if t["name"].startswith("mt:ext")
                             else "auto-escape state not restored after a construct")
